@@ -111,6 +111,25 @@ pub fn variant_builders() -> Vec<(String, Packet)> {
     v
 }
 
+/// one codec, a history: a packet the encoder refuses in the middle of serialising it, then packets it accepts — every
+/// accepted one is exactly its own frame, whatever the refused one left behind
+pub fn codec_history_case(ctx: &mut Ctx, compressed: bool, which: usize) {
+    ctx.oracle_eval("codec-history");
+    let op = format!("c03.history {} {}", mode_tok(compressed), which);
+    let seq = crate::c06::refused_seq(which);
+    let r = guard(std::panic::AssertUnwindSafe(move || {
+        #[allow(unused_mut)] let mut c = insim::net::Codec::new(mode_of(compressed));
+        seq.iter().map(|p| c.encode(p).ok().map(|b| b.to_vec())).collect::<Vec<_>>()
+    }));
+    let sb = crate::conn::size_byte(compressed, 4);
+    let want: Vec<Option<Vec<u8>>> = vec![Some(vec![sb, 3, 1, 3]), None, Some(vec![sb, 3, 2, 3]), Some(vec![sb, 3, 3, 3])];
+    match r {
+        Some(got) if got == want => {},
+        other => ctx.violation("c03/wellformed/after-refusal", "after a refused packet the same codec does not encode the next packets as exactly their own frames", &op,
+            &format!("{:?}", want.iter().map(|o| o.as_ref().map(|b| hex(b))).collect::<Vec<_>>()), &format!("{:?}", other.map(|v| v.iter().map(|o| o.as_ref().map(|b| hex(b))).collect::<Vec<_>>()))),
+    }
+}
+
 pub fn wellformed_case(ctx: &mut Ctx, ls: &Layouts, compressed: bool, label: &str, p: &Packet, elems: Option<usize>, detail: &str) {
     ctx.oracle_eval(&format!("wellformed-{}", label.split('+').next().unwrap_or(label)));
     let input = format!("c03.build {} {} {}", mode_tok(compressed), label, detail);
@@ -179,6 +198,7 @@ pub fn run(ctx: &mut Ctx) {
                 ["pkt.rt", m, h] => redecode_case(ctx, &ls, *m == "c", &unhex(h), true),
                 // oracle only: inputs outside the model's value space (e.g. MSO names longer than 255 UTF-8 bytes)
                 ["c03.redecode", m, h] => redecode_case(ctx, &ls, *m == "c", &unhex(h), false),
+                ["c03.history", m, w] => codec_history_case(ctx, *m == "c", w.parse().unwrap_or(0)),
                 ["c03.build", m, label, "variant"] => { for (lab, p) in variant_builders() { if lab == *label { wellformed_case(ctx, &ls, *m == "c", label, &p, None, "variant"); } } },
                 ["c03.build", m, label, detail] => {
                     let (n, tl): (usize, usize) = { let mut it = detail.split(','); (it.next().and_then(|x| x.trim_start_matches("n=").parse().ok()).unwrap_or(0), it.next().and_then(|x| x.trim_start_matches("text=").parse().ok()).unwrap_or(0)) };
@@ -198,6 +218,8 @@ pub fn run(ctx: &mut Ctx) {
         for len in [2040usize, 2044, 4080, 4084, 4096, 65536, 65540, 1 << 20] { len_case(ctx, compressed, len); }
         ctx.exhaustive_domains.push(format!("every body length 0..={} through Mode::encode_length, mode {}", if quick { 1300 } else { 5000 }, mode_tok(compressed)));
         // element counts 0..=257 and texts of every length 0..2x the largest width
+        // a refused packet in the history of the codec
+        for which in 0..4 { codec_history_case(ctx, compressed, which); }
         // every variant of the hand-coded sub-typed kinds
         for (lab, p) in variant_builders() { wellformed_case(ctx, &ls, compressed, &lab, &p, None, "variant"); }
         for n in 0..=257usize {
